@@ -179,13 +179,13 @@ Print Assumptions c06_acn_stale_free.
 Example ex_acn_data_handled :
   run ([0; 16; 0; 0; 65; 83; 67; 45; 69; 49; 46; 49; 55; 0; 0; 0; 112; 113; 0; 0; 0; 4; 17; 17; 17; 17; 17; 17; 17; 17; 17; 17; 17; 17; 17; 17; 17; 1; 112; 91; 0; 0; 0; 2; 115; 111; 117; 114; 99; 101; 0; 0; 0; 0; 0; 0; 0; 0; 0; 0; 0; 0; 0; 0; 0; 0; 0; 0; 0; 0; 0; 0; 0; 0; 0; 0; 0; 0; 0; 0; 0; 0; 0; 0; 0; 0; 0; 0; 0; 0; 0; 0; 0; 0; 0; 0; 0; 0; 0; 0; 0; 0; 0; 0; 0; 0; 0; 0; 100; 0; 0; 7; 0; 0; 1; 112; 14; 2; 161; 0; 0; 0; 1; 0; 4; 0; 9; 8; 7] ++ repeat 165 1343)
       (acn_handle false 129 [mk_uh 1 None 0 []])
-  = Done ([mk_uh 1 (Some [9; 8; 7]) 100 [mk_src [17; 17; 17; 17; 17; 17; 17; 17; 17; 17; 17; 17; 17; 17; 17; 1] 7 (Some [9; 8; 7])]], [AcnEvData 1]).
+  = Done ([mk_uh 1 (Some [9; 8; 7]) 100 [mk_src [17; 17; 17; 17; 17; 17; 17; 17; 17; 17; 17; 17; 17; 17; 17; 1] 7 (Some [9; 8; 7])]], [AcnEvData 1; EvSrc [115; 111; 117; 114; 99; 101]]).
 Proof. vm_compute. reflexivity. Qed.
 
 Example ex_acn_discovery_handled :
   run ([0; 16; 0; 0; 65; 83; 67; 45; 69; 49; 46; 49; 55; 0; 0; 0; 112; 105; 0; 0; 0; 4; 18; 18; 18; 18; 18; 18; 18; 18; 18; 18; 18; 18; 18; 18; 18; 2; 112; 83; 0; 0; 0; 4; 115; 111; 117; 114; 99; 101; 0; 0; 0; 0; 0; 0; 0; 0; 0; 0; 0; 0; 0; 0; 0; 0; 0; 0; 0; 0; 0; 0; 0; 0; 0; 0; 0; 0; 0; 0; 0; 0; 0; 0; 0; 0; 0; 0; 0; 0; 0; 0; 0; 0; 0; 0; 0; 0; 0; 0; 0; 0; 0; 0; 0; 0; 0; 0; 50; 0; 0; 179; 0; 0; 1; 0; 0; 1; 2; 0; 3] ++ repeat 165 1351)
       (acn_handle false 121 [])
-  = Done ([], [EvPage [18; 18; 18; 18; 18; 18; 18; 18; 18; 18; 18; 18; 18; 18; 18; 2] 0 0 [258; 3]]).
+  = Done ([], [EvPage [18; 18; 18; 18; 18; 18; 18; 18; 18; 18; 18; 18; 18; 18; 18; 2] 0 0 [258; 3]; EvSrc [115; 111; 117; 114; 99; 101]]).
 Proof. vm_compute. reflexivity. Qed.
 
 (* the E1.33 (RPT) and LLRP header decoders accept a well-formed packet (they are added to the root inflator by the
